@@ -783,7 +783,7 @@ def rule_generativity(ctx):
     # (a) abstract types allocated from the witness of an EXISTING binder
     n = 0
     for fn, bd in sorted(facts.bodies().items()):
-        if not bd["loc"][0].startswith("lang/statics/src/check") or "{closure" in fn:
+        if not bd["loc"][0].startswith("lang/statics/src/") or "{closure" in fn:
             continue
         h = facts.hir(fn)
         if not h:
@@ -806,6 +806,40 @@ def rule_generativity(ctx):
                 else:
                     ctx.ok(rule, "abstract-type@%s:%s" % (M.short_fn(fn), c.get("ln")))
     ctx.floor(rule, "abstract types allocated from a witness id", n, 10)
+    # (a') the opening helper itself: fresh id, substituted for the binder's witness in the body; used by the three introductions
+    fn = "zydeco_statics::destruct::<impl zydeco_statics::syntax::TypeBinder>::open_k"
+    h = facts.hir(fn)
+    if h is None:
+        ctx.anchor_lost(rule, fn + " not found")
+    else:
+        calls = [c for c in H.walk(h["body"]) if H.kind(c) in ("Call", "MethodCall")]
+        fresh = [c for c in calls if re.search(r"Alloc<.*AbstId>>::alloc$", H.callee(c) or "")]
+        substs = [c for c in calls if re.search(r"TypeId>::subst_absts?(_k)?$", H.callee(c) or "")]
+        env = A.ArmEnv()
+        env.strip = True
+        env.bind_params(h)
+        env.absorb(h["body"])
+        good = False
+        for c in substs:
+            sx = A.sexpr(c, env)
+            # the assignment maps the binder's own witness to the type allocated from the fresh id
+            if fresh and re.search(r"\(tuple \(\. \$P\d witness\) \(<[^ ]*AbstId as [^ ]*Alloc<\w+, [^ ]*TypeId>>::alloc \$P\d "
+                                   r"\(<[^ ]* as [^ ]*Alloc<\w+, [^ ]*AbstId>>::alloc ", sx):
+                good = True
+        ctx.check(good, rule, "forall-intro:open_k:fresh-and-substituted", "TypeBinder::open_k must allocate a fresh AbstId and substitute "
+                  "the type built from it for the binder's witness in the body (found %d fresh allocations, %d substitutions)"
+                  % (len(fresh), len(substs)), facts.bodies()[fn]["loc"], detail=[A.sexpr(c, env)[:200] for c in substs])
+        users = {M.short_fn(f) for f in facts.bodies() if "{closure" not in f and facts.hir(f)
+                 and any(H.kind(c) in ("Call", "MethodCall") and (H.callee(c) or "").endswith("TypeBinder>::open_k")
+                         for c in H.walk(facts.hir(f)["body"]))}
+        ctx.floor(rule, "introductions opening their binder (open_k callers)", len(users), 2)
+        # (e) the variable of a type abstraction is not scoped like an opened existential
+        scoped = any(H.kind(x) == "Field" and x.get("name") == "existential_skolems" for x in H.walk(h["body"]))
+        ctx.check(scoped, rule, "forall-intro:variable-unscoped", "the abstract type a `fn X => ..` introduces is not scoped (it is not a "
+                  "skolem of the body's environment and no result is constrained to the enclosing scope): a sealed definition made under "
+                  "the abstraction (`fn (X : VType) => fn (x : X) => def Wrap = data | +W : X end in ret (+W(x) : Wrap)`) mentions X and "
+                  "leaves with the result type, so every instance of the polymorphic function returns the same `Wrap`",
+                  facts.bodies()[fn]["loc"])
     # (b) canonical skolems of a PackPi signature
     fn = "zydeco_statics::check::PackPiWitnessSkolems::<'a>::collect_k"
     h = facts.hir(fn)
@@ -862,7 +896,21 @@ def rule_generativity(ctx):
             for a in m["arms"]:
                 if not A.pat_shape(a["pat"]).startswith("Abst("):
                     continue
-                opens = any(H.kind(x) == "Field" and x.get("name") == "seals" for x in H.walk(a["body"]))
+                reads = any(H.kind(x) == "Field" and x.get("name") == "seals" for x in H.walk(a["body"]))
+                recurses = any(H.kind(x) in ("Call", "MethodCall") and (H.callee(x) or "").endswith("TypeSupportCollector::visit")
+                               for x in H.walk(a["body"]))
+                opens = reads and recurses
+                if opens:
+                    # occurrences inside a sealed definition are not bound by the binders of the type naming the seal (substitution
+                    # does not go through seals): the bound set must not filter them
+                    resets = any(H.kind(x) in ("Call", "MethodCall") and re.search(r"mem::(take|replace|swap)", H.callee(x) or "")
+                                 and any(H.kind(y) == "Field" and y.get("name") == "bound" for y in H.walk(x))
+                                 for x in H.walk(a["body"]))
+                    ctx.check(resets, rule, "support:Abst:seal-binders-reset", "TypeSupportCollector::visit visits the definition of a sealed "
+                              "abstract type with the enclosing binders still counted as bound: a `def W = data | +W : X end in` made under a "
+                              "package-dependent introduction `fn ((X, v) : Box) => ..` mentions the telescope's X, the result type `pi [X] . "
+                              "Ret W` binds X, and W escapes unnoticed (two applications return interchangeable `W`s)",
+                              [facts.bodies()[fn]["loc"][0], a["ln"]])
                 if not opens:
                     ctx.violation(rule, "support:Abst:seal-not-opened", "TypeSupportCollector::visit records an abstract type only when it is an "
                                   "existential skolem and never looks into the definition a SEALED abstract type stands for: a local `def W "
